@@ -101,7 +101,7 @@ def apply_action(w, st, a):
 
 def build(impl, hist):
     w = peer.make_world(impl, server_kwargs=dict(ping_interval=INTERVAL, ping_timeout=TIMEOUT,
-                                                 max_http_buffer_size=4000))
+                                                 max_http_buffer_size=4000, compression_threshold=8))
     st = St()
     for a in hist:
         if not apply_action(w, st, a):
@@ -131,6 +131,12 @@ def probes():
         ('get_poll_upgrade_only', 'GET', q + '&sid=$', {'headers': {'Upgrade': 'websocket'}}),
         ('get_conn_only', 'GET', q + '&sid=$', {'headers': {'Connection': 'Upgrade'}}),
         ('open', 'GET', q, {}),
+        # the compressed response paths (threshold 8 bytes in this world)
+        ('poll_gzip', 'GET', q + '&sid=$', {'headers': {'Accept-Encoding': 'gzip'}}),
+        ('poll_deflate', 'GET', q + '&sid=$', {'headers': {'Accept-Encoding': 'deflate, gzip'}}),
+        ('open_gzip', 'GET', q, {'headers': {'Accept-Encoding': 'gzip, deflate'}}),
+        ('get_unknown_gzip', 'GET', q + '&sid=nosuchsid-nosuchsid', {'headers': {'Accept-Encoding': 'gzip'}}),
+        ('post_bad_gzip', 'POST', q + '&sid=$', {'body': b'7', 'headers': {'Accept-Encoding': 'gzip'}}),
         ('open_ws_upgrade_only', 'GET', 'EIO=4&transport=websocket', {'headers': {'Upgrade': 'websocket'}}),
         ('open_ws_nohdr', 'GET', 'EIO=4&transport=websocket', {}),
         ('open_bad_eio', 'GET', 'EIO=3&transport=polling', {}),
